@@ -6,6 +6,8 @@ import (
 	"encoding/binary"
 	"encoding/json"
 	"fmt"
+	"sync"
+	"sync/atomic"
 	"testing"
 
 	"github.com/rminnich/go9p"
@@ -56,6 +58,73 @@ type Case struct {
 	AfterFill []byte `json:"afterfill,omitempty"`
 	Next      []byte `json:"next,omitempty"`
 	NextDotu  bool   `json:"nextdotu,omitempty"`
+	// Synth (kind "msg"): the reference record is built from a few numbers (a
+	// message with up to 65535 names / qids or a payload of up to a few MiB) and
+	// Pkt is its reference encoding, computed when the case runs.
+	Synth *Synth `json:"synth,omitempty"`
+	// kind "conc": Workers[g] is the list of "msg" / "dir" cases that goroutine g
+	// works through (each goroutine on Fcalls, buffers and records of its own),
+	// all goroutines at the same time: every case once in full, then Rounds times
+	// encode + compare + decode + compare of each.
+	Workers [][]Case `json:"workers,omitempty"`
+	Rounds  int      `json:"rounds,omitempty"`
+	// set on the cases of a "conc" run: package-level bookkeeping of the harness
+	// (prevFc, conv.DirSize) is left alone
+	conc bool
+}
+
+// Synth describes a large message by its numbers.
+type Synth struct {
+	Type uint8 `json:"type"` // Twalk, Rwalk, Rread, Twrite
+	N    int   `json:"n"`    // number of names / qids / payload bytes
+	// Twalk: name i has (i+Seed) mod (L+1) bytes
+	L    int    `json:"l,omitempty"`
+	Seed uint32 `json:"seed"` // content pattern
+}
+
+func synthMsg(s *Synth) *ref9p.Msg {
+	x := hx.Mix(uint64(s.Seed), uint64(s.Type))
+	m := &ref9p.Msg{Type: s.Type, Tag: uint16(x >> 48)}
+	at := func(i int) uint64 {
+		v := x + uint64(i)*0xD1B54A32D192ED03
+		v ^= v >> 29
+		return v * 0xBF58476D1CE4E5B9
+	}
+	switch s.Type {
+	case ref9p.Rwalk:
+		m.Wqid = make([]ref9p.Qid, s.N)
+		for i := range m.Wqid {
+			v := at(i)
+			m.Wqid[i] = ref9p.Qid{Type: uint8(v >> 56), Vers: uint32(v >> 20), Path: v ^ uint64(i)}
+		}
+	case ref9p.Twalk:
+		m.Fid, m.Newfid = uint32(x), uint32(x>>32)
+		m.Wname = make([]string, s.N)
+		var nb [16]byte
+		for i := range m.Wname {
+			v := at(i)
+			ln := (i + int(s.Seed%251)) % (s.L + 1)
+			for k := 0; k < ln && k < len(nb); k++ {
+				nb[k] = byte(v >> (8 * (k % 8)))
+			}
+			if ln > 1 {
+				nb[0], nb[1] = byte(i), byte(i>>8)
+			}
+			m.Wname[i] = string(nb[:min(ln, len(nb))])
+		}
+	case ref9p.Rread, ref9p.Twrite:
+		if s.Type == ref9p.Twrite {
+			m.Fid, m.Offset = uint32(x), at(-1)
+		}
+		m.Data = make([]byte, s.N)
+		for i := 0; i < len(m.Data); i += 8 {
+			v := at(i)
+			for k := 0; k < 8 && i+k < len(m.Data); k++ {
+				m.Data[i+k] = byte(v >> (8 * k))
+			}
+		}
+	}
+	return m
 }
 
 // clobber changes the decode source buffer the way c.After says.
@@ -224,11 +293,21 @@ func run(c *Case) (err error) {
 	}()
 	switch c.Kind {
 	case "msg":
+		if c.Synth != nil {
+			if c.Synth.N < 0 || c.Synth.N > 1<<23 || c.Synth.L < 0 || c.Synth.L > 16 {
+				return fmt.Errorf("harness: bad synth %+v", *c.Synth)
+			}
+			cc := *c
+			cc.Pkt = ref9p.Encode(synthMsg(c.Synth), c.Dotu)
+			c = &cc
+		}
 		return runMsg(c)
 	case "dir":
 		return runDir(c)
 	case "rread":
 		return runRread(c)
+	case "conc":
+		return runConc(c)
 	}
 	return fmt.Errorf("harness: unknown kind %q", c.Kind)
 }
@@ -245,19 +324,28 @@ func runMsg(c *Case) error {
 	if err != nil {
 		return err
 	}
-	conv.DirSize = c.DirSize
+	if conv.DirSize != c.DirSize {
+		conv.DirSize = c.DirSize // (cases of a "conc" run all have 0 here: never written while goroutines run)
+	}
 	if err := conv.Pack(fc, m, c.Dotu); err != nil {
-		return fmt.Errorf("constructor refused a representable %s: %v", ref9p.TypeName(m.Type), err)
+		return fmt.Errorf("constructor refused a representable %s%s: %v", ref9p.TypeName(m.Type), c.synthDesc(), err)
 	}
-	// packing into one Fcall must not disturb a packet built earlier in another Fcall
-	if prevFc != nil && !bytes.Equal(prevFc.Pkt, prevWant) {
-		return fmt.Errorf("packing a %s disturbed the packet of a previously built %s (differs at byte %d)", ref9p.TypeName(m.Type), ref9p.TypeName(prevFc.Type), firstDiff(prevFc.Pkt, prevWant))
+	if !c.conc {
+		// packing into one Fcall must not disturb a packet built earlier in another Fcall
+		if prevFc != nil && !bytes.Equal(prevFc.Pkt, prevWant) {
+			return fmt.Errorf("packing a %s disturbed the packet of a previously built %s (differs at byte %d)", ref9p.TypeName(m.Type), ref9p.TypeName(prevFc.Type), firstDiff(prevFc.Pkt, prevWant))
+		}
+		defer func() {
+			prevFc, prevWant = fc, append([]byte(nil), fc.Pkt...)
+			if len(prevWant) > 1<<16 {
+				prevFc, prevWant = nil, nil
+			}
+		}()
 	}
-	defer func() { prevFc, prevWant = fc, append([]byte(nil), fc.Pkt...) }()
 	// constructors always write NOTAG
 	want := ref9p.SetTag(c.Pkt, ref9p.NOTAG)
 	if !bytes.Equal(fc.Pkt, want) {
-		return fmt.Errorf("%s dotu=%v (buffer %s): packet differs from the protocol layout at byte %d:\n got  %s\n want %s", ref9p.TypeName(m.Type), c.Dotu, c.bufState(), firstDiff(fc.Pkt, want), hexs(fc.Pkt), hexs(want))
+		return fmt.Errorf("%s%s dotu=%v (buffer %s): packet of %d bytes (Fcall.Size %d) differs from the protocol layout (%d bytes) at byte %d:\n got  %s\n want %s", ref9p.TypeName(m.Type), c.synthDesc(), c.Dotu, c.bufState(), len(fc.Pkt), fc.Size, len(want), firstDiff(fc.Pkt, want), hexs(fc.Pkt), hexs(want))
 	}
 	if int(fc.Size) != len(fc.Pkt) {
 		return fmt.Errorf("Fcall.Size %d != len(Pkt) %d", fc.Size, len(fc.Pkt))
@@ -988,4 +1076,500 @@ func TestAllStringLengths(t *testing.T) {
 	if hx.Thorough() {
 		hx.Exhaustive("every string length 0..65535 for one string field of each of 9 string-carrying types, the decode buffer flipped / zeroed / filled afterwards")
 	}
+}
+
+func (c *Case) synthDesc() string {
+	if c.Synth == nil {
+		return ""
+	}
+	switch c.Synth.Type {
+	case ref9p.Twalk:
+		return fmt.Sprintf(" with %d names of 0..%d bytes", c.Synth.N, c.Synth.L)
+	case ref9p.Rwalk:
+		return fmt.Sprintf(" with %d qids", c.Synth.N)
+	}
+	return fmt.Sprintf(" with %d payload bytes", c.Synth.N)
+}
+
+// ---- counts at the extremes -------------------------------------------------
+
+// wrapPoints: the counts n around which n*unit crosses a multiple of 2^16 (a
+// size computed in 16 bits goes wrong from there on), up to 65535.
+func wrapPoints(unit int) []int {
+	var out []int
+	for k := 1; ; k++ {
+		n := (k<<16 + unit - 1) / unit // first n with n*unit >= k*2^16
+		if n > 65535 {
+			break
+		}
+		out = append(out, n-1, n, n+1)
+	}
+	return out
+}
+
+func countLabel(n int) string {
+	switch {
+	case n <= 16:
+		return "0-16"
+	case n < 5000:
+		return "17-4999"
+	case n < 32768:
+		return "5000-32767"
+	case n < 65535:
+		return "32768-65534"
+	}
+	return "65535"
+}
+
+func payloadLabel(n int) string {
+	switch {
+	case n < 65536-64:
+		return "<2^16-64"
+	case n <= 65536+64:
+		return "2^16+-64"
+	case n < 1<<20-64:
+		return "2^16+64..2^20-64"
+	}
+	return ">=2^20-64"
+}
+
+// TestCountExtremes: every constructor that takes a 16-bit count (nwname, nwqid)
+// at the ends and at the wrap points of that count, and the payload carriers
+// around 2^16 and 2^20, each compared byte for byte with the reference encoder
+// and decoded again.
+func TestCountExtremes(t *testing.T) {
+	type row struct {
+		typ  uint8
+		n, l int
+	}
+	var rows []row
+	for _, n := range append([]int{17, 255, 256, 4096, 5041, 5042, 6000, 32767, 32768, 65534, 65535}, wrapPoints(13)...) {
+		rows = append(rows, row{ref9p.Rwalk, n, 0})
+	}
+	for _, l := range []int{0, 3, 14} {
+		for _, n := range []int{17, 256, 4096, 32767, 32768, 65534, 65535} {
+			rows = append(rows, row{ref9p.Twalk, n, l})
+		}
+	}
+	for _, n := range wrapPoints(2) { // names all empty: 2 bytes each
+		rows = append(rows, row{ref9p.Twalk, n, 0})
+	}
+	for _, typ := range []uint8{ref9p.Rread, ref9p.Twrite} {
+		hdr := 11
+		if typ == ref9p.Twrite {
+			hdr = 23
+		}
+		for _, n := range []int{65535 - hdr, 65536 - hdr, 65537 - hdr, 65534, 65535, 65536, 65537, 1<<17 - hdr, 1 << 17, 1<<20 - hdr, 1 << 20, 1<<20 + 1} {
+			rows = append(rows, row{typ, n, 0})
+		}
+	}
+	bad := 0
+	for i, r := range rows {
+		if i%hx.NShards != hx.Shard {
+			continue
+		}
+		for _, dotu := range []bool{false, true} {
+			c := &Case{Kind: "msg", Dotu: dotu, Synth: &Synth{Type: r.typ, N: r.n, L: r.l, Seed: uint32(i)*2 + 1}, NewTag: uint16(r.n) ^ 0x5A5A, Desc: "count extremes"}
+			if dotu {
+				c.Fill, c.After = []byte{0xAA}, "flip"
+				c.Tags, c.UTags = []uint16{ref9p.NOTAG, 1}, []uint16{ref9p.NOTAG}
+			} else {
+				c.Slack, c.After = 1, "zero"
+			}
+			hx.Eval()
+			hx.NonTrivial("count", r.typ, r.n, r.l, dotu)
+			if r.typ == ref9p.Twalk || r.typ == ref9p.Rwalk {
+				hx.Label(fmt.Sprintf("extremes type=%s count=%s", ref9p.TypeName(r.typ), countLabel(r.n)))
+			} else {
+				hx.Label(fmt.Sprintf("extremes type=%s payload=%s", ref9p.TypeName(r.typ), payloadLabel(r.n)))
+			}
+			hx.Sample("count-extremes", sampleOf(c))
+			if err := run(c); err != nil {
+				hx.Violation("count-extremes", c, err.Error())
+				t.Errorf("%v", err)
+				if bad++; bad >= 5 {
+					t.Fatalf("count table abandoned after %d violations", bad)
+				}
+			}
+		}
+	}
+	hx.Exhaustive("count extremes: Rwalk with 17, 255, 256, 4096, 5041, 5042, 6000, 32767, 32768, 65534, 65535 qids and every count n-1, n, n+1 where 13*n crosses a multiple of 2^16; Twalk with 17..65535 names of 0..{0,3,14} bytes and the counts where 2*n crosses 2^16; Rread / Twrite with payloads that put the payload or the whole packet at 2^16-1, 2^16, 2^16+1, 2^17, 2^20; both dialects")
+}
+
+// TestPropCounts: the same constructors with drawn counts.
+func TestPropCounts(t *testing.T) {
+	cfg := gen9p.Cfg{Heavy: false, MaxData: 300}
+	hx.Check(t, "counts", hx.N(100, 600), func(t *rapid.T) {
+		dotu := rapid.Bool().Draw(t, "dotu")
+		sy := &Synth{Type: rapid.SampledFrom([]uint8{ref9p.Rwalk, ref9p.Rwalk, ref9p.Twalk, ref9p.Twalk, ref9p.Rread, ref9p.Twrite}).Draw(t, "type"), Seed: rapid.Uint32().Draw(t, "seed")}
+		switch sy.Type {
+		case ref9p.Rwalk, ref9p.Twalk:
+			unit := 13
+			if sy.Type == ref9p.Twalk {
+				sy.L = rapid.SampledFrom([]int{0, 0, 1, 2, 3, 6, 14}).Draw(t, "l")
+				unit = 2
+			}
+			sy.N = rapid.OneOf(rapid.IntRange(0, 65535), rapid.IntRange(0, 65535), rapid.SampledFrom(append([]int{65535, 65534, 32768, 32767}, wrapPoints(unit)...))).Draw(t, "n")
+		default:
+			sy.N = rapid.OneOf(
+				rapid.IntRange(65536-64, 65536+64),
+				rapid.Custom(func(t *rapid.T) int {
+					return rapid.IntRange(1, 16).Draw(t, "k")<<16 + rapid.IntRange(-32, 32).Draw(t, "d")
+				}),
+				rapid.IntRange(0, 1<<20)).Draw(t, "n")
+		}
+		c := &Case{Kind: "msg", Dotu: dotu, Synth: sy}
+		c.Slack = rapid.SampledFrom([]int{0, 0, 1, 100, 8192}).Draw(t, "slack")
+		c.NewTag = gen9p.U16().Draw(t, "newtag")
+		if rapid.Bool().Draw(t, "withjunk") {
+			c.Junk = rapid.SliceOfN(rapid.Byte(), 1, 40).Draw(t, "junk")
+		}
+		drawReuse(t, c, cfg)
+		drawAfter(t, c, cfg)
+		hx.Eval()
+		if sy.Type == ref9p.Twalk || sy.Type == ref9p.Rwalk {
+			hx.Label(fmt.Sprintf("counts type=%s count=%s", ref9p.TypeName(sy.Type), countLabel(sy.N)))
+		} else {
+			hx.Label(fmt.Sprintf("counts type=%s payload=%s", ref9p.TypeName(sy.Type), payloadLabel(sy.N)))
+		}
+		reuseLabels(c)
+		if sy.N > 0 {
+			hx.NonTrivial("synth", dotu, sy.Type, sy.N, sy.L, sy.Seed)
+		}
+		hx.Sample("counts", sampleOf(c))
+		if err := run(c); err != nil {
+			hx.Failf(t, "counts", c, "%v", err)
+		}
+	})
+}
+
+// ---- the codec used from several goroutines at once ------------------------
+
+// concItem is one "msg" / "dir" case prepared for the repeated part of a
+// concurrent run: reference values computed once, buffers owned by the worker.
+type concItem struct {
+	c     *Case
+	m     *ref9p.Msg // msg: reference record (tag = the one in c.Pkt)
+	canon *ref9p.Msg
+	notag []byte
+	fc    *go9p.Fcall
+	in    []byte // own copy of the bytes that are decoded
+	recs  []ref9p.Stat
+	dirs  []*go9p.Dir
+	encs  [][]byte
+}
+
+func prepItem(c *Case) (*concItem, error) {
+	it := &concItem{c: c, in: append([]byte(nil), c.Pkt...)}
+	switch c.Kind {
+	case "msg":
+		m, n, err := ref9p.Decode(c.Pkt, c.Dotu)
+		if err != nil || n != len(c.Pkt) {
+			return nil, fmt.Errorf("harness: reference bytes do not decode: %v", err)
+		}
+		it.m, it.canon, it.notag = m, ref9p.Canon(m, c.Dotu), ref9p.SetTag(c.Pkt, ref9p.NOTAG)
+		it.fc = go9p.NewFcall(uint32(len(c.Pkt) + c.Slack))
+	case "dir":
+		rest := c.Pkt
+		for len(rest) > 0 {
+			s, n, err := ref9p.DecodeStat(rest, c.Dotu)
+			if err != nil {
+				return nil, fmt.Errorf("harness: reference stat bytes do not decode: %v", err)
+			}
+			it.recs = append(it.recs, ref9p.CanonStat(s, c.Dotu))
+			it.dirs = append(it.dirs, conv.GDir(s))
+			it.encs = append(it.encs, rest[:n])
+			rest = rest[n:]
+		}
+	default:
+		return nil, fmt.Errorf("harness: kind %q inside a concurrent case", c.Kind)
+	}
+	return it, nil
+}
+
+// step: encode + compare + decode + compare, everything on the item's own data.
+func (it *concItem) step() error {
+	c := it.c
+	if c.Kind == "msg" {
+		if err := conv.Pack(it.fc, it.m, c.Dotu); err != nil {
+			return fmt.Errorf("constructor refused a representable %s: %v", ref9p.TypeName(it.m.Type), err)
+		}
+		if !bytes.Equal(it.fc.Pkt, it.notag) {
+			return fmt.Errorf("%s dotu=%v: packet differs from the protocol layout at byte %d:\n got  %s\n want %s", ref9p.TypeName(it.m.Type), c.Dotu, firstDiff(it.fc.Pkt, it.notag), hexs(it.fc.Pkt), hexs(it.notag))
+		}
+		go9p.SetTag(it.fc, it.m.Tag)
+		if !bytes.Equal(it.fc.Pkt, c.Pkt) {
+			return fmt.Errorf("%s dotu=%v: after SetTag(%d) packet differs at byte %d", ref9p.TypeName(it.m.Type), c.Dotu, it.m.Tag, firstDiff(it.fc.Pkt, c.Pkt))
+		}
+		got, n, err := go9p.Unpack(it.in, c.Dotu)
+		if err != nil || n != len(it.in) {
+			return fmt.Errorf("%s dotu=%v: Unpack consumed %d of %d, err %v", ref9p.TypeName(it.m.Type), c.Dotu, n, len(it.in), err)
+		}
+		if d := ref9p.Diff(ref9p.Canon(conv.FromFcall(got), c.Dotu), it.canon); d != "" {
+			return fmt.Errorf("%s dotu=%v: decoded field differs from the input: %s", ref9p.TypeName(it.m.Type), c.Dotu, d)
+		}
+		return nil
+	}
+	b := it.in
+	for i := range it.recs {
+		if e := go9p.PackDir(it.dirs[i], c.Dotu); !bytes.Equal(e, it.encs[i]) {
+			return fmt.Errorf("PackDir record %d dotu=%v differs at byte %d:\n got  %s\n want %s", i, c.Dotu, firstDiff(e, it.encs[i]), hexs(e), hexs(it.encs[i]))
+		}
+		d, nb, amt, err := go9p.UnpackDir(b, c.Dotu)
+		if err != nil || amt != len(it.encs[i]) || len(nb) != len(b)-amt {
+			return fmt.Errorf("UnpackDir record %d/%d dotu=%v: amt %d (record is %d), remainder %d of %d, err %v", i, len(it.recs), c.Dotu, amt, len(it.encs[i]), len(nb), len(b), err)
+		}
+		if gs := ref9p.CanonStat(ptr(conv.Stat(d)), c.Dotu); gs != it.recs[i] {
+			return fmt.Errorf("UnpackDir record %d dotu=%v: fields differ from the bytes it was given:\n got  %s\n want %s", i, c.Dotu, statStr(&gs), statStr(&it.recs[i]))
+		}
+		b = nb
+	}
+	return nil
+}
+
+type concFail struct {
+	worker, item, round int // round -1: the full run of the case
+	err                 error
+}
+
+// runConc: len(c.Workers) goroutines use the codec at the same moment, each on
+// its own cases. The functions under test are functions of their arguments;
+// whatever the interleaving, each result must be what the reference says for
+// that goroutine's own input. (Which interleavings happen is up to the Go
+// scheduler: a run that finds nothing proves little, a mismatch is a fact.)
+func runConc(c *Case) error {
+	if len(c.Workers) == 0 || len(c.Workers) > 64 || c.Rounds < 0 {
+		return fmt.Errorf("harness: bad concurrent case")
+	}
+	items := make([][]*concItem, len(c.Workers))
+	for g := range c.Workers {
+		for i := range c.Workers[g] {
+			sc := c.Workers[g][i] // copy
+			if sc.DirSize != 0 || len(sc.Prev) > 0 || sc.Synth != nil {
+				return fmt.Errorf("harness: worker case touches shared harness state")
+			}
+			sc.conc = true
+			it, err := prepItem(&sc)
+			if err != nil {
+				return err
+			}
+			items[g] = append(items[g], it)
+		}
+	}
+	conv.DirSize = 0
+	var stop atomic.Bool
+	fails := make([]*concFail, len(c.Workers))
+	start := make(chan struct{})
+	var wg sync.WaitGroup
+	for g := range items {
+		wg.Add(1)
+		go func(g int) {
+			defer wg.Done()
+			fail := func(i, r int, err error) {
+				fails[g] = &concFail{g, i, r, err}
+				stop.Store(true)
+			}
+			defer func() {
+				if r := recover(); r != nil && fails[g] == nil {
+					fail(-1, -1, fmt.Errorf("panic: %v", r))
+				}
+			}()
+			<-start
+			for i, it := range items[g] {
+				if stop.Load() {
+					return
+				}
+				if err := run(it.c); err != nil {
+					fail(i, -1, err)
+					return
+				}
+			}
+			for r := 0; r < c.Rounds; r++ {
+				for i, it := range items[g] {
+					if err := it.step(); err != nil {
+						fail(i, r, err)
+						return
+					}
+				}
+				if stop.Load() {
+					return
+				}
+			}
+		}(g)
+	}
+	close(start)
+	wg.Wait()
+	for _, f := range fails {
+		if f == nil {
+			continue
+		}
+		alone := "the same case, run afterwards on its own with no other goroutine in the codec, passes"
+		if f.item >= 0 {
+			it := items[f.worker][f.item]
+			err := run(it.c)
+			if err == nil {
+				err = it.step()
+			}
+			if err != nil {
+				alone = "run afterwards on its own it fails too: " + err.Error()
+			}
+		}
+		where := "full run of the case"
+		if f.round >= 0 {
+			where = fmt.Sprintf("round %d of %d", f.round, c.Rounds)
+		}
+		return fmt.Errorf("%d goroutines using the codec at the same time, each on its own Fcalls, buffers and records: goroutine %d, case %d of %d (%s), %s: %v\n(%s)", len(c.Workers), f.worker, f.item, len(c.Workers[f.worker]), c.Workers[f.worker][max(f.item, 0)].Kind, where, f.err, alone)
+	}
+	return nil
+}
+
+// namePool hands out distinct byte strings of one length: a common prefix and a
+// two-byte counter walked with an odd stride, so that small tables indexed by
+// any hash of the name see many different names in every slot.
+type namePool struct {
+	prefix       []byte
+	next, stride uint16
+	printable    bool
+}
+
+func (p *namePool) fresh() string {
+	b := append([]byte(nil), p.prefix...)
+	v := p.next
+	p.next += p.stride
+	if p.printable {
+		const hexd = "0123456789abcdef"
+		b = append(b, hexd[v>>12], hexd[v>>8&15], hexd[v>>4&15], hexd[v&15])
+	} else {
+		b = append(b, byte(v>>8), byte(v))
+	}
+	return string(b)
+}
+
+func drawPool(t *rapid.T) *namePool {
+	p := &namePool{printable: rapid.Bool().Draw(t, "printable")}
+	if p.printable {
+		p.prefix = []byte(rapid.SampledFrom([]string{"", "u", "usr", "user", "group-"}).Draw(t, "prefix"))
+	} else {
+		p.prefix = rapid.SliceOfN(rapid.Byte(), 0, 6).Draw(t, "prefix")
+	}
+	p.next = rapid.Uint16().Draw(t, "first")
+	p.stride = rapid.Uint16().Draw(t, "stride") | 1
+	return p
+}
+
+// poolStr: a name for one string field. own is the worker's recurring name
+// (the "root" that every record of a listing carries).
+func poolStr(t *rapid.T, p *namePool, own string, label string) string {
+	switch k := rapid.IntRange(0, 9).Draw(t, label); {
+	case k == 0:
+		return ""
+	case k <= 2:
+		return own
+	}
+	return p.fresh()
+}
+
+func poolStat(t *rapid.T, cfg gen9p.Cfg, p *namePool, own string, dotu bool) ref9p.Stat {
+	s := cfg.Stat(t, dotu, "st")
+	s.Name, s.Uid, s.Gid, s.Muid = poolStr(t, p, own, "name"), poolStr(t, p, own, "uid"), poolStr(t, p, own, "gid"), poolStr(t, p, own, "muid")
+	if dotu {
+		s.Ext = poolStr(t, p, own, "ext")
+	} else {
+		s.Ext = ""
+	}
+	return s
+}
+
+// poolMsg: a generated message whose strings all come from the pool.
+func poolMsg(t *rapid.T, cfg gen9p.Cfg, p *namePool, own string, typ uint8, dotu bool) *ref9p.Msg {
+	m := cfg.Msg(t, typ, dotu)
+	str := func(s *string, label string) {
+		if *s != "" {
+			*s = poolStr(t, p, own, label)
+		}
+	}
+	str(&m.Version, "version")
+	str(&m.Uname, "uname")
+	str(&m.Aname, "aname")
+	str(&m.Ename, "ename")
+	str(&m.Name, "name")
+	str(&m.Ext, "ext")
+	for i := range m.Wname {
+		m.Wname[i] = poolStr(t, p, own, "wname")
+	}
+	if typ == ref9p.Rstat || typ == ref9p.Twstat {
+		m.Stat = poolStat(t, cfg, p, own, dotu)
+	}
+	return m
+}
+
+// TestPropConcurrent: see runConc.
+func TestPropConcurrent(t *testing.T) {
+	cfg := gen9p.Cfg{Heavy: false, MaxData: 64}
+	statTypes := []uint8{ref9p.Rstat, ref9p.Twstat}
+	strTypes := []uint8{ref9p.Tversion, ref9p.Rversion, ref9p.Tauth, ref9p.Tattach, ref9p.Rerror, ref9p.Twalk, ref9p.Tcreate}
+	hx.Check(t, "concurrent", hx.N(12, 16), func(t *rapid.T) {
+		pool := drawPool(t)
+		ng := rapid.SampledFrom([]int{2, 3, 4, 8, 8, 8, 12}).Draw(t, "goroutines")
+		c := &Case{Kind: "conc", Rounds: hx.N(3000, 6000)}
+		nmsg, ndir, nstr := 0, 0, 0
+		for g := 0; g < ng; g++ {
+			own := pool.fresh()
+			var list []Case
+			for i, n := 0, rapid.IntRange(4, 12).Draw(t, "ncases"); i < n; i++ {
+				dotu := rapid.Bool().Draw(t, "dotu")
+				sc := Case{Dotu: dotu}
+				switch k := rapid.IntRange(0, 9).Draw(t, "what"); {
+				case k < 4: // stat records on their own
+					sc.Kind = "dir"
+					sc.Nrec = rapid.IntRange(1, 4).Draw(t, "nrec")
+					for j := 0; j < sc.Nrec; j++ {
+						s := poolStat(t, cfg, pool, own, dotu)
+						nstr += statStrBytes(&s, dotu)
+						sc.Pkt = append(sc.Pkt, ref9p.EncodeStat(&s, dotu)...)
+					}
+					ndir++
+				default:
+					typ := gen9p.AnyType(t)
+					if k < 6 {
+						typ = rapid.SampledFrom(statTypes).Draw(t, "stattype")
+					} else if k < 8 {
+						typ = rapid.SampledFrom(strTypes).Draw(t, "strtype")
+					}
+					m := poolMsg(t, cfg, pool, own, typ, dotu)
+					nstr += strBytes(m, dotu)
+					sc.Kind, sc.Pkt = "msg", ref9p.Encode(m, dotu)
+					sc.NewTag = gen9p.U16().Draw(t, "newtag")
+					sc.Slack = rapid.SampledFrom([]int{0, 1, 100}).Draw(t, "slack")
+					nmsg++
+				}
+				sc.After = rapid.SampledFrom([]string{"", "zero", "flip"}).Draw(t, "after")
+				list = append(list, sc)
+			}
+			c.Workers = append(c.Workers, list)
+		}
+		hx.Eval()
+		hx.Label(fmt.Sprintf("concurrent goroutines=%d", ng))
+		hx.Label(fmt.Sprintf("concurrent name-length=%d printable=%v", len(pool.prefix)+map[bool]int{true: 4, false: 2}[pool.printable], pool.printable))
+		hx.ExtraAdd("concurrent_msg_cases", int64(nmsg))
+		hx.ExtraAdd("concurrent_dir_cases", int64(ndir))
+		hx.ExtraAdd("concurrent_rounds", int64(c.Rounds*ng))
+		if nstr > 0 {
+			var id []byte
+			for _, l := range c.Workers {
+				for _, sc := range l {
+					id = append(id, sc.Pkt...)
+				}
+			}
+			hx.NonTrivial("conc", ng, id)
+		}
+		s := *c
+		s.Workers = [][]Case{c.Workers[0][:1]}
+		s.Desc = fmt.Sprintf("(sample shows 1 of %d cases of goroutine 0 of %d)", len(c.Workers[0]), ng)
+		hx.Sample("concurrent", s)
+		hx.Journal("concurrent", c)
+		if err := run(c); err != nil {
+			hx.Failf(t, "concurrent", c, "%v", err)
+		}
+	})
 }
